@@ -11,6 +11,9 @@ Streams
                  order) x import forms from a top-level script and from modules inside packages:
                  Script.infer / goto(follow_imports=True) vs Model (Importer.init + follow + attribute-first)
   oracle-resolve the same answers vs the real import system run in a clean interpreter with that sys.path
+  starchain      layouts with CHAINS of star imports (relative / absolute inner links, same-named siblings in the
+                 starting package): ModuleMixin.star_imports() of the starting module vs Model.StarImports; the
+                 names reached only through the chain are judged by oracle-resolve (forms starchain / from-starchain)
   oracle-dotted  for every file of the tree: the dotted name jedi derives imports back to that file
 """
 import itertools
@@ -25,7 +28,7 @@ from common import short
 from gen import scratch
 from gen.scratch import B, Scratch
 
-MODELS = ['Imports']
+MODELS = ['Imports', 'StarImports']
 MANIFEST = dict(
     text='Theorems over the model of Importer.__init__ (level rewriting), import_module_by_names/import_module '
          '(the fold over the dotted name, finder as parameter), infer_import (attribute first, then sub-module) and '
@@ -35,12 +38,17 @@ MANIFEST = dict(
          'equals pyImport on the whole dotted name and is empty as soon as one step is; from-import agrees with '
          'Python\'s attribute-then-submodule rule; every dotted name derived under the separator-boundary '
          'hypothesis spells the path below its sys.path entry (kernel-checked counter-witness /foo/ba vs /foo/bar '
-         'for the unrestricted statement, F4), and the first shortest candidate is returned.',
+         'for the unrestricted statement, F4), and the first shortest candidate is returned.  Chains of star imports '
+         '(Model.StarImports = ModuleMixin.star_imports, recursion shape read from the source): every link is resolved '
+         'against the package of the module that contains it, the modules listed are exactly those whose names '
+         'executing the modules copies (star_chain_sound / _complete / star_chain_names_eq_python), kernel-checked '
+         'witness for a recursion that hands the root module\'s context down.',
     note='Modelled not verified: importlib (finder = parameter; its model pyFind is validated by stream find), '
          'module caches, stub lookup, old-style declare_namespace packages, compiled modules, zip imports, '
          'sys.path modifications detected in the source.',
     technique='Lean 4 proof over hand-written model + translator-generated constants + differential '
-              'correspondence on generated directory trees + importlib in a clean interpreter as oracle',
+              'correspondence on generated directory trees (incl. star-import chains: stream starchain) + importlib in a '
+              'clean interpreter as oracle',
     design='5.C10')
 LEAN_TARGETS = ['JediModel.Props.C10', 'JediModel.Drivers.C10']
 
@@ -502,6 +510,49 @@ def fixed_trees():
     ]
 
 
+def star_world_cases(ctx, reqs, cases, tree, base, project, ti):
+    """correspondence stream starchain: the real ModuleMixin.star_imports() of the starting module vs
+    Model.StarImports.starImportsOf in the world of modules of the layout (dotted name -> package, star imports)"""
+    import jedi
+    import parso.cache
+    by_name, by_file = {}, {}
+    for r in tree['roots']:
+        for f in sorted(tree['files']):
+            root, *rest = f.split('/')
+            if root != r:
+                continue
+            is_pkg = rest[-1] == '__init__.py'
+            name = rest[:-1] if is_pkg else rest[:-1] + [rest[-1][:-3]]
+            by_file[f] = name
+            if tuple(name) not in by_name:
+                i = tree['info'][f]
+                by_name[tuple(name)] = {'name': name, 'pkg': name if is_pkg else name[:-1], 'defs': i['defs'],
+                                        'stars': [{'level': lvl, 'path': path} for lvl, path in i['stars']]}
+    for loc, pkg, modname, qs in tree['importers']:
+        firsts = sorted({(q['level'], tuple(q['names'])) for q in qs if q['form'] == 'starchain'})
+        for lvl, names in firsts:
+            code = 'from %s%s import *\n' % ('.' * lvl, '.'.join(names))
+            start = modname.split('.') if modname else ['__main__']
+            world = dict(by_name)
+            world[tuple(start)] = {'name': start, 'pkg': pkg.split('.') if pkg else [], 'defs': [],
+                                   'stars': [{'level': lvl, 'path': list(names)}]}
+            try:
+                parso.cache.parser_cache.clear()
+                script = jedi.Script(code, path=os.path.join(base, loc), project=project)
+                impl = []
+                for v in script._get_module().star_imports():
+                    f = v.py__file__()
+                    rel = os.path.relpath(str(f), base) if f is not None else None
+                    impl.append(by_file.get(rel, ['?', str(rel)]))
+            except Exception as e:   # noqa  totality is C01's business
+                cls, site = common.exc_site(e)
+                ctx.count('raised', (ti, loc, code), nontrivial=False, bucket='%s@%s' % (cls, site))
+                continue
+            reqs.append({'op': 'starchain', 'modules': list(world.values()), 'start': start, 'fuel': 8})
+            cases.append((('starchain', {'roots': tree['roots'], 'files': tree['files'], 'importer': loc,
+                                         'code': code}), impl))
+
+
 def stream_trees(ctx, reqs, sc):
     import importlib
     import jedi
@@ -567,6 +618,8 @@ def stream_trees(ctx, reqs, sc):
                     for loc, pkg, modname, qs in tree['importers']]
         else:
             continue
+        if tag == 'starchain':
+            star_world_cases(ctx, reqs, cases, tree, base, project, ti)
         for loc, pkg, modname, queries in plan:
             path = os.path.join(base, loc)
             if modname:
@@ -713,6 +766,16 @@ def compare(ctx, cases, answers):
                       bucket='none' if impl is None else impl.get('kind', 'exc'))
             if ans != impl:
                 ctx.tie_broken('correspondence:find', short({'case': key[1:], 'importlib': impl, 'model': ans}, 800))
+        elif stream == 'starchain':
+            spec = key[1]
+            ctx.count('starchain', json.dumps(spec, sort_keys=True), nontrivial=len(impl) >= 2,
+                      bucket='modules=%d' % len(impl), sample={'code': spec['code'], 'importer': spec['importer'],
+                                                                'star_imports': impl})
+            if ans != impl:
+                ctx.tie_broken('correspondence:starchain',
+                               short({'code': spec['code'], 'importer': spec['importer'], 'roots': spec['roots'],
+                                      'files': spec['files'], 'impl': impl, 'model': ans}, 1500))
+                # failing-input search: the same layouts and statements are judged by oracle-resolve against importlib
         elif stream == 'resolve':
             spec, base, form = key[1], key[2], key[3]
             model = canon_model(ans, base)
